@@ -79,9 +79,12 @@ impl ElixirRange {
         if self.is_empty() {
             return 0;
         }
-        let diff = (self.last - self.first).abs();
-        let step = self.step.abs();
-        ((diff / step) + 1) as usize
+        // `abs_diff` and `unsigned_abs` are defined for every pair of bounds and every step,
+        // `i64::MIN` included. The count is exact whenever it fits `usize` and saturates at
+        // `usize::MAX` otherwise (on 64-bit targets only `i64::MIN..=i64::MAX` with a step of
+        // 1 or -1, which has 2^64 members).
+        let steps = self.last.abs_diff(self.first) / self.step.unsigned_abs();
+        usize::try_from(steps).map_or(usize::MAX, |n| n.saturating_add(1))
     }
 
     /// Returns true if the range contains the given value.
